@@ -36,6 +36,7 @@ type c12case struct {
 	Links     [][2]string `json:"links,omitempty"`       // symlinks: path relative to the project -> target
 	ViaLink   bool        `json:"via_link,omitempty"`    // the project (and $HOME) is reached through a symlinked directory
 	LogicPWD  bool        `json:"logical_pwd,omitempty"` // $PWD holds the working directory as the user spelled it (what a shell does)
+	VarsLast  bool        `json:"variables_declared_last,omitempty"` // the variables that name outputs are declared below the tasks
 	ProjName  string      `json:"project_directory,omitempty"` // name of the project directory ("" = proj)
 	Prior     []string    `json:"prior_outputs,omitempty"` // an earlier version of the spokfile declared these outputs and its tasks were run; then the spokfile was edited
 }
@@ -76,6 +77,7 @@ func c12Gen(r *core.Rng) c12case {
 	k.CleanTask = r.Chance(15)
 	k.ViaLink = r.Chance(20)
 	k.LogicPWD = r.Chance(50)
+	k.VarsLast = r.Chance(25)
 	if r.Chance(25) {
 		k.ProjName = core.Pick(r, []string{"..proj", "proj..", "...", "-proj", "pro j", "proj[1]", "~proj"})
 	}
@@ -126,16 +128,19 @@ func c12Gen(r *core.Rng) c12case {
 }
 
 func (k c12case) text(proj string) string {
-	var b strings.Builder
+	var b, vars strings.Builder
 	home := filepath.Dir(proj)
 	for _, o := range k.Outs {
 		if o.Kind == "var" {
 			if o.Join {
-				fmt.Fprintf(&b, "%s := join(\"%s\")\n", o.Text, strings.ReplaceAll(o.Value, "@PROJ@", proj))
+				fmt.Fprintf(&vars, "%s := join(\"%s\")\n", o.Text, strings.ReplaceAll(o.Value, "@PROJ@", proj))
 			} else {
-				fmt.Fprintf(&b, "%s := \"%s\"\n", o.Text, strings.ReplaceAll(o.Value, "@PROJ@", proj))
+				fmt.Fprintf(&vars, "%s := \"%s\"\n", o.Text, strings.ReplaceAll(o.Value, "@PROJ@", proj))
 			}
 		}
+	}
+	if !k.VarsLast {
+		b.WriteString(vars.String())
 	}
 	b.WriteString("\n")
 	// spread the outputs over two tasks
@@ -168,6 +173,9 @@ func (k c12case) text(proj string) string {
 		b.WriteString("task marker() {\n    printf cleaned > cleaned.marker\n}\n\ntask clean(marker) {}\n")
 	} else if k.CleanTask {
 		b.WriteString("task clean() {\n    printf cleaned > cleaned.marker\n}\n")
+	}
+	if k.VarsLast {
+		b.WriteString("\n" + vars.String())
 	}
 	return b.String()
 }
